@@ -39,6 +39,13 @@ def run(repo: Repo, chk: Check):
                       "(shared with R07.c)", floor=2)
     from .c07 import r07c
     chk.guarded(r07c, repo, chk, "R06.l")
+    chk.rule("R06.m", "a call is turned into a tail jump only when it leaves nothing to do after the callee has returned: what the call adds to its "
+                      "'end' section (taking the returned value off the stack) would be skipped, and the stack pointer at the return would be one "
+                      "above its value at the call", floor=1)
+    chk.guarded(r06m, repo, chk)
+    chk.rule("R06.n", "a call with the wrong number of arguments is rejected whatever the options are: in the push/pop convention it would push "
+                      "more (or fewer) values than the callee pops", floor=1)
+    chk.guarded(r06n, repo, chk)
 
 
 def _addr(site):
@@ -100,7 +107,12 @@ def r06a(repo, chk, R="R06.a"):
         same_atoms = {a: v for a, v in co.items() if a != "<i>"} == rk[0]
         slope = co.get("<i>")
         distinct = same_atoms and ((slope < 0 and k < rk[1]) or (slope > 0 and k > rk[1]))
-        chk.judge(R, "fixed slots: no argument slot coincides with the result slot", bool(distinct),
+        if not same_atoms:
+            # the two addresses are written over different symbols: nothing can be said about their distance
+            chk.unresolved(R, "fixed slots: no argument slot coincides with the result slot",
+                           f"argument slot {co}+{k} and result slot {rk} are not expressed over the same constants", ca[0].where())
+        else:
+          chk.judge(R, "fixed slots: no argument slot coincides with the result slot", bool(distinct),
                   f"argument slot {co}+{k} can equal the result slot {rk}", None, ca[0].where())
     # iteration order
     cfgc, rdc = fn_ctx(ca[0].fn)
@@ -462,6 +474,22 @@ def r06k(repo, chk, R="R06.f"):
         if d.kind == "assign" and isinstance(v, ast.Call) and isinstance(v.func, ast.Name) and v.func.id in ("max", "min") and v.args and isinstance(v.args[0], (ast.GeneratorExp, ast.ListComp)):
             verdicts.append(("last" if v.func.id == "max" else "first", norm(v)[:70], st))
             continue
+        # <indices>[-1] / <indices>[0] (possibly '... if <indices> else None') over the list of matching positions in order
+        v2 = v.body if isinstance(v, ast.IfExp) and isinstance(v.orelse, ast.Constant) and v.orelse.value is None else v
+        if d.kind == "assign" and isinstance(v2, ast.Subscript) and isinstance(v2.value, ast.Name) and isinstance(v2.slice, (ast.Constant, ast.UnaryOp)):
+            try:
+                idx = ast.literal_eval(v2.slice)
+            except Exception:
+                idx = None
+            lds = rd.at(d.node, v2.value.id)
+            comp = lds[0].value if len(lds) == 1 and lds[0].kind == "assign" and not lds[0].index else None
+            if idx in (0, -1) and isinstance(comp, ast.ListComp) and len(comp.generators) == 1 and "self.code" in norm(comp.generators[0].iter) \
+                    and "enumerate" in norm(comp.generators[0].iter) and isinstance(comp.generators[0].target, ast.Tuple) \
+                    and norm(comp.elt) == norm(comp.generators[0].target.elts[0]):
+                rev_ = "reversed" in norm(comp.generators[0].iter)
+                keeps_ = "last" if (idx == -1) != rev_ else "first"
+                verdicts.append((keeps_, norm(v)[:70], st))
+                continue
         # assigned inside a scan over enumerate(self.code)
         lp = st
         while lp is not None and not isinstance(lp, ast.For):
@@ -517,3 +545,111 @@ def r06h(repo, chk, R="R06.h"):
                   f"the jump to '<name>end' is emitted under {desc}: expected exactly 'node is not func_node.body[-1]'. A return elsewhere (end of an if-branch, "
                   f"end of a loop body) that omits the jump is not an exit point for add_ra_instructions (pop ra is misplaced under push/pop) and inside a loop it "
                   f"falls onto the back jump", {"guards": desc}, s.where())
+
+
+# ---------------------------------------------------------------------- R06.m
+def _tri(e, env):
+    """Kleene evaluation of a guard over the atoms PP (push/pop convention), RV (callee returns a value), E (the call's
+    'end' section is empty); anything else is unknown (None)."""
+    if isinstance(e, ast.BoolOp):
+        vals = [_tri(v, env) for v in e.values]
+        if isinstance(e.op, ast.And):
+            return False if any(v is False for v in vals) else (None if any(v is None for v in vals) else True)
+        return True if any(v is True for v in vals) else (None if any(v is None for v in vals) else False)
+    if isinstance(e, ast.UnaryOp) and isinstance(e.op, ast.Not):
+        v = _tri(e.operand, env)
+        return None if v is None else (not v)
+    if isinstance(e, ast.Attribute) and e.attr == "use_push_pop_functions":
+        return env["PP"]
+    if isinstance(e, ast.Attribute) and e.attr in ("has_return_value", "func_has_return_value"):
+        return env["RV"]
+    if _is_end_section(e):
+        return not env["E"]
+    if isinstance(e, ast.Compare) and len(e.ops) == 1 and isinstance(e.left, ast.Call) and norm(e.left.func) == "len" and e.left.args \
+            and _is_end_section(e.left.args[0]) and isinstance(e.comparators[0], ast.Constant) and e.comparators[0].value == 0:
+        if isinstance(e.ops[0], ast.Eq):
+            return env["E"]
+        if isinstance(e.ops[0], (ast.NotEq, ast.Gt)):
+            return not env["E"]
+    return None
+
+
+def _is_end_section(e):
+    return isinstance(e, ast.Subscript) and isinstance(e.value, ast.Attribute) and e.value.attr == "code" \
+        and isinstance(e.slice, ast.Constant) and e.slice.value == "end"
+
+
+def r06m(repo, chk, R="R06.m"):
+    g = repo.mod("generate_code")
+    cf = g.func(f"{GEN_CLASS}.compile_function")
+    chk.saw("generate_code", cf.qual)
+    cfg, rd = fn_ctx(cf)
+    rewrites = [st for st in ast.walk(cf) if isinstance(st, ast.Assign) and any(isinstance(t, ast.Attribute) and t.attr == "op" for t in st.targets)
+                and isinstance(st.value, ast.Constant) and st.value.value == "j"]
+    if not rewrites:
+        raise AnalysisError("compile_function: the tail-call rewrite (<instr>.op = 'j') was not found")
+    # does a call of a non-inlined function put anything into its 'end' section?  (the read of the result)
+    hc = g.func(f"{GEN_CLASS}.handle_call")
+    pending = [s for s in collect_sites(repo, ["generate_code"]) if s.fn is hc and s.section == "end"]
+    if not pending:
+        chk.ok(R, "generate_code:compile_function:tail jump leaves nothing pending", {"pending": "handle_call adds nothing to the end section"})
+        return
+    pops = sorted({op for s in pending if s.opcodes is not TOP for op in s.opcodes})
+    for rw in rewrites:
+        ids = live_ids(cfg, rw)
+        if not ids:
+            continue
+        atoms = guard_atoms(cfg, ids[0])
+        # is the state  push/pop convention, callee returns a value, end section not empty  excluded by the guards?
+        env = {"PP": True, "RV": True, "E": False}
+        excluded = any(_tri(t, env) is (not pol) for t, pol in atoms)
+        chk.judge(R, "generate_code:compile_function:tail jump leaves nothing pending", excluded,
+                  f"the rewrite jal->j is applied also when the call still has work in its 'end' section ({pops} after the jal, emitted by handle_call): "
+                  f"after the tail jump the callee returns straight to the caller's caller, the returned value stays on the stack and every such call "
+                  f"leaves the stack pointer one higher (push/pop convention, result not used)",
+                  {"guards": [f"{norm(t)} is {pol}" for t, pol in atoms], "pending": pops}, f"{g.path}:{rw.lineno} in {cf.qual}")
+
+
+# ---------------------------------------------------------------------- R06.n
+def _count_test(t):
+    """len(A) != len(B) (or ==): returns the operator, else None."""
+    if isinstance(t, ast.Compare) and len(t.ops) == 1 and all(isinstance(x, ast.Call) and norm(x.func) == "len" for x in (t.left, t.comparators[0])):
+        return type(t.ops[0])
+    return None
+
+
+def _mentions_option(t):
+    return any(isinstance(a, ast.Attribute) and isinstance(a.value, (ast.Attribute, ast.Name)) and norm(a.value).split(".")[-1] in ("options", "opts")
+               for a in ast.walk(t))
+
+
+def r06n(repo, chk, R="R06.n"):
+    g = repo.mod("generate_code")
+    found = []
+    for q in ("handle_call", "compile_function"):
+        fn = g.func(f"{GEN_CLASS}.{q}")
+        chk.saw("generate_code", fn.qual)
+        cfg, rd = fn_ctx(fn)
+        for r in ast.walk(fn):
+            if not isinstance(r, ast.Raise):
+                continue
+            ids = live_ids(cfg, r)
+            if not ids:
+                continue
+            atoms = guard_atoms(cfg, ids[0])
+            cnt = [(t, pol) for t, pol in atoms if (_count_test(t) is ast.NotEq and pol) or (_count_test(t) is ast.Eq and not pol)]
+            if not cnt:
+                continue
+            opt = [(t, pol) for t, pol in atoms if _mentions_option(t)]
+            found.append((fn, r, cnt, opt))
+    key = "generate_code:argument count of a call is compared with the parameter count under every option vector"
+    if not found:
+        chk.bad(R, key, "no site compares the number of arguments of a call with the number of parameters of the callee: 'f(1, 2)' for 'def f(a)' "
+                        "pushes two values and pops one", None, f"{g.path}")
+        return
+    uncond = [x for x in found if not x[3]]
+    fn, r, cnt, opt = (uncond or found)[0]
+    chk.judge(R, key, bool(uncond),
+              f"the argument count is checked only under {[norm(t) + ' is ' + str(p) for t, p in opt]}: under the other option values "
+              f"'f(1, 2)' for 'def f(a)' compiles, and in the push/pop convention pushes two values of which the callee pops one",
+              {"test": norm(cnt[0][0]), "option_guards": [norm(t) for t, _ in opt]}, f"{g.path}:{r.lineno} in {fn.qual}")
